@@ -27,6 +27,16 @@
 // and for the other bounded algorithms (so that "never worse than the start" is meaningful); constraints consistent with
 // a strictly feasible point for the inactive ones, equality rows linearly independent on the non-fixed variables and fewer
 // than those; tolerances in (0,1); CMAES needs >= 2 parameters.
+//
+// Keys that fire on the tree as of 2026-09-22 (reported to the lead; each is one root cause):
+//   eval-outside-bounds/<LBFGSB|InteriorPoint>:numerical-differentiation-step   OptimizerRep.cpp gradientFuncWrapper /
+//       constraintJacobianWrapper hand the iterate to a Differentiator, which steps x_i +/- h regardless of the limits;
+//   truthful-f:InteriorPoint:objective-is-that-of-the-unprojected-point(bound-relaxation)   IpOrigIpoptNLP.cpp FinalizeSolution
+//       projects x into the user's bounds but reports f of the unprojected point (InteriorPointOptimizer.cpp returns it);
+//   constraint-violation:InteriorPoint:<equality|inequality>:within-ctol-only-before-projection-into-bounds(bound-relaxation)
+//       same mechanism, visible only for constraint tolerances ~1e-8;
+//   outside-bounds-by-rounding(<=8ulp-of-bound)/LBFGSB:<evaluation|result>   lbfgsb.cpp lnsrlb_: x = stp*d + t with
+//       stp = stpmx = (bound-t)/d can round one ulp past the bound.
 #include "SimTKmath.h"
 #include "vh.h"
 #include <iostream>
